@@ -264,14 +264,35 @@ class Ctx:
         return ok
 
     def prove(self, allow_axioms=()):
-        """compile Properties/<prop>.v and its whole dependency closure; check Print Assumptions"""
-        target = f'theories/Properties/{self.prop}.vo'
-        src = os.path.join(COQ, f'theories/Properties/{self.prop}.v')
+        """compile Properties/<prop>.v (and any Properties/<prop>_*.v) with their whole dependency
+        closure; check every Print Assumptions; audit the sources"""
+        import glob
+        files = [f'theories/Properties/{self.prop}.v'] + sorted(
+            os.path.relpath(f, COQ) for f in glob.glob(os.path.join(COQ, f'theories/Properties/{self.prop}_*.v')))
+        ok_all = True
+        all_printed = []
+        axioms_seen = set()
+        for rel in files:
+            ok, printed = self._prove_file(rel, allow_axioms, axioms_seen)
+            ok_all = ok_all and ok
+            all_printed += printed
+        self.coverage['axioms_used'] = sorted(axioms_seen)
+        problems = audit_sources()
+        if not self.oblige('audit:no-Admitted/Axiom/disabled-checks', not problems, '; '.join(problems[:5])):
+            ok_all = False
+            self.proof_broken.append('audit failed: ' + '; '.join(problems[:3]))
+        self.coverage['theorems'] = all_printed
+        return ok_all
+
+    def _prove_file(self, rel, allow_axioms, axioms_seen):
+        target = rel[:-2] + '.vo'
+        src = os.path.join(COQ, rel)
+        tag = os.path.basename(rel)[:-2]
         text = strip_coq_comments(open(src).read())
         theorems = re.findall(r'^\s*(?:Theorem|Corollary)\s+([\w\']+)', text, re.M)
         printed = re.findall(r'Print\s+Assumptions\s+([\w\'.]+)\s*\.', text)
         missing = [t for t in theorems if t not in printed]
-        self.oblige('every-theorem-has-Print-Assumptions', not missing, ','.join(missing))
+        self.oblige(f'every-theorem-has-Print-Assumptions:{tag}', not missing, ','.join(missing))
         rc, out = coq_make([target])
         if rc != 0:
             err = parse_coq_error(out)
@@ -283,21 +304,20 @@ class Ctx:
             for t in theorems:
                 self.oblige(f'theorem:{t}', False, 'closure does not compile: ' + what)
             self.proof_broken.append('proof obligation no longer checks: ' + what)
-            return False
+            return False, printed
         # fresh Print Assumptions output
         with Lock('coq'):
-            rc, out = sh(['coqc', '-Q', 'theories', 'Rodbus', f'theories/Properties/{self.prop}.v'], cwd=COQ, timeout=1200)
+            rc, out = sh(['coqc', '-Q', 'theories', 'Rodbus', rel], cwd=COQ, timeout=1200)
         if rc != 0:
-            self.oblige('properties-file-compiles', False, out[-400:])
+            self.oblige(f'properties-file-compiles:{tag}', False, out[-400:])
             self.proof_broken.append('Properties file does not compile: ' + out[-300:])
-            return False
+            return False, printed
         blocks = re.split(r'(?=Closed under the global context|Axioms:)', out)
         blocks = [b for b in blocks if b.startswith('Closed under') or b.startswith('Axioms:')]
         ok_all = True
         if len(blocks) != len(printed):
-            self.oblige('print-assumptions-count', False, f'{len(blocks)} outputs for {len(printed)} commands')
+            self.oblige(f'print-assumptions-count:{tag}', False, f'{len(blocks)} outputs for {len(printed)} commands')
             ok_all = False
-        axioms_seen = set()
         for name, b in zip(printed, blocks):
             if b.startswith('Closed under'):
                 self.oblige(f'theorem:{name}', True, 'closed under the global context')
@@ -308,13 +328,7 @@ class Ctx:
                 if not self.oblige(f'theorem:{name}', not bad, 'axioms: ' + ','.join(axs)):
                     ok_all = False
                     self.proof_broken.append(f'theorem {name} depends on unexpected axioms {bad}')
-        self.coverage['axioms_used'] = sorted(axioms_seen)
-        problems = audit_sources()
-        if not self.oblige('audit:no-Admitted/Axiom/disabled-checks', not problems, '; '.join(problems[:5])):
-            ok_all = False
-            self.proof_broken.append('audit failed: ' + '; '.join(problems[:3]))
-        self.coverage['theorems'] = printed
-        return ok_all
+        return ok_all, printed
 
     def coqchk(self):
         mod = f'Rodbus.Properties.{self.prop}'
